@@ -24,7 +24,8 @@ RULE = ("case = (simulator in {direct Levy process, 1-d chain, copula chain, 1-d
 ASSUMPTIONS = ["jump counts are scripted (Poisson.sample replaced), everything else is recorded, not replaced",
                "copulas: finite-variation margins; grids of at most 9 points per axis"]
 REQUIRED_COUNTERS = ["paths_checked", "fixed_date_paths", "jump_time_paths", "max_step_paths", "multi_date_paths",
-                     "finer_grid_direct_calls", "coupled_paths", "paths_without_jump", "coarse_component_checks", "nd_diffusion_running_sums_nonzero_matrix", "finer_grid_gaps_multiple_of_the_cap"]
+                     "finer_grid_direct_calls", "coupled_paths", "paths_without_jump", "coarse_component_checks", "nd_diffusion_running_sums_nonzero_matrix", "finer_grid_gaps_multiple_of_the_cap",
+                     "steps_with_brownian_increment_checked"]
 MIN_NONTRIVIAL = {"quick": 60, "thorough": 800}
 THOROUGH_ROUNDS = 20      # the thorough tier runs the generators this many times (different seeds)
 SHARD_TIMEOUT = {"quick": 900, "thorough": 7200}
@@ -480,6 +481,17 @@ def _judge(R, case, wit, sim, mode, dates, T, eps, path, rec, prod_times, target
             if j != all_t.size:
                 R.violation(f"{tag}-jump-time-lost", f"{all_t.size - j} simulated jump times are missing from the path", wit)
                 return False
+        # diffusion (1-d): with a Brownian component every step of positive length carries a Brownian increment (whatever the number of jumps)
+        if dim == 1:
+            coeff0 = _sigma(target, coupled, sim)
+            if coeff0 is not None and coeff0 > 0:
+                R.hit("steps_with_brownian_increment_checked", n - 1)
+                incr = np.diff((dp[0] if coupled else dp).reshape(-1))
+                if np.any(incr == 0.0):
+                    R.violation(f"{tag}-step-without-brownian-increment" + ("-path-without-jump" if n_jumps == 0 else ""), f"{sim} {mode} mode, diffusion coefficient "
+                                f"{coeff0!r}: the diffusion component does not move over {int(np.sum(incr == 0.0))} of the {n - 1} step(s) of the path "
+                                f"({n_jumps} jump(s), {len(rec.normals)} block(s) of normal variates drawn)", wit)
+                    return False
         # diffusion (1-d): normals drawn for this path, one per step
         if dim == 1 and rec.normals:
             coeff = _sigma(target, coupled, sim)
